@@ -61,7 +61,8 @@ def reads_for(rng, d, names, sweep):
             if pp == p and (sweep or rng.random() < 0.3):
                 cands.append('/resource_providers/%s/inventories/%s'
                              % (p, rc))
-    for c in (names.consumers if sweep else [rng.choice(names.consumers)]):
+    allc = names.consumers + names.upper_consumers
+    for c in (allc if sweep else [rng.choice(allc)]):
         cands.append('/allocations/%s' % c)
     cands += ['/resource_providers', '/traits', '/resource_classes']
     for pj in (sorted(d.projects)[:3] if sweep else
